@@ -4,6 +4,7 @@
 package core
 
 import (
+	"runtime/debug"
 	"bufio"
 	"encoding/hex"
 	"encoding/json"
@@ -420,6 +421,9 @@ func Safe(f func() string) (out string) {
 	defer func() {
 		if r := recover(); r != nil {
 			out = "panic"
+			if os.Getenv("OXV_PANIC_TRACE") != "" {
+				fmt.Fprintf(os.Stderr, "PANIC: %v\n%s\n", r, debug.Stack())
+			}
 		}
 	}()
 	return f()
